@@ -25,10 +25,12 @@ RULE = ('modules from tools/gen/irgen.py (seeded; all features incl. shuffled bl
         'writer case (real dict vs model JSON) and one round-trip case (real from_json(to_json) vs model); '
         'non-trivial = module with at least one function whose real round trip terminates normally')
 EXPLANATION = ('Coq theorems about Model.IrJson (hand model of io.py, fixed configuration = /repo + fixes/C16-*.diff): '
-               'refutations of the round trip for the code as it is (5 witnesses), round trip of types, byte blobs, '
-               'externals, variables with initial values and of every instruction kind in a resolving reader state, '
-               'and the full module round trip on a generated corpus (bounded). The unbounded module-level theorem '
-               'with forward references is not proved (partial).')
+               'refutations of the round trip for the code as it is (one well-formed witness per defect, 5 defects of '
+               'io.py + 2 known findings in ir.replace_use), unbounded round trip of types, byte blobs (bin2asc/asc2bin), '
+               'constants, externals and global variables WITH initial values, and the whole-module round trip on a '
+               'generated corpus of 16 modules incl. loops and shuffled block order (bounded, vm_compute). NOT proved: the '
+               'unbounded per-instruction and module-level theorems (reader state invariant with forward-reference '
+               'patching); they are covered only by the bounded theorem and the per-run correspondence.')
 TRUSTED = ['hand model coq/Model/IrJson.v (cross-checked against io.py on every run, both directions)',
            'tools/irimport.py (ppci.ir objects -> Coq syntax; ids in print order)',
            'json.dumps/json.loads are the identity on JSON values (floats: repr round-trips; NaN payloads excluded)',
@@ -355,9 +357,9 @@ def replay_witness(k):
 MANIFEST = {
     'text': 'proof (partial at module level): the code as it is loses Variable.value and volatile flags, cannot serialise '
             'CopyBlob/Undefined and rejects forward operands (5 Coq refutations replayed on the implementation, 5 fix diffs); '
-            'on the repaired reader/writer model Coq proves the round trip of types, byte data, externals, initialised '
-            'variables and every instruction kind in a resolving reader state, and checks the whole-module round trip by '
-            'vm_compute on a generated corpus',
+            'on the repaired reader/writer model Coq proves (unbounded) the round trip of types, byte data, constants, '
+            'externals and initialised global variables, and checks the whole-module round trip by vm_compute on a '
+            'generated corpus (bounded); the unbounded instruction/module theorem is not proved',
     'note': 'trusted: hand model Model/IrJson.v (differentially checked against io.py on ~130 modules per run in both '
             'directions), irimport, json text layer. Not proved: the unbounded module theorem with forward-reference '
             'patching; known findings in ir.replace_use (double use / repeated call argument of a forward value).',
